@@ -293,7 +293,8 @@ theorem sdf_file_roundtrip (rs : List SDRec) (d : Nat) (v : Version) (ls : List 
             · decide
             · exact md_lines_noDelim r.md hnd.2.2.2 l hl
           · exact ih2 rec' hrec' l hl
-        · simp only [List.map_cons, List.mapM_cons, hde, hname, ih3, bind, Except.bind, pure, Except.pure]
+        · simp only [bind, Except.bind, pure, Except.pure] at ih3
+          simp only [List.map_cons, List.mapM_cons, hde, hname, ih3, bind, Except.bind, pure, Except.pure]
     obtain ⟨k1, k2, k3⟩ := key rs recs hf hok
     have hrne : recs ≠ [] := by
       intro e; subst e
